@@ -441,6 +441,41 @@ pub fn gen_ws(rng: &mut Rng, o: &WsOpts) -> WsSpec {
             files[ci].items.insert(at, it);
         }
     }
+    // a conftest importing the conftest.py of a SIBLING directory (`from ..other.conftest import *`, `from other.conftest
+    // import name`): that conftest's fixtures become visible in a tree that is not below it
+    if o.imports && rng.chance(250) {
+        let conftests: Vec<(usize, String)> = files.iter().enumerate().filter(|(_, f)| f.rel.ends_with("conftest.py")).map(|(i, f)| (i, dir_of(&f.rel))).collect();
+        for (ci, cdir) in conftests.iter() {
+            if cdir.is_empty() || !rng.chance(500) {
+                continue;
+            }
+            let cands: Vec<&(usize, String)> = conftests
+                .iter()
+                .filter(|(_, sd)| sd != cdir && !sd.is_empty() && parent_dir(sd) == parent_dir(cdir) && sd.rsplit('/').next().unwrap().chars().all(|c| c.is_ascii_alphanumeric() || c == '_'))
+                .collect();
+            if cands.is_empty() {
+                continue;
+            }
+            let (si, sdir) = (*rng.pick(&cands)).clone();
+            let sub = sdir.rsplit('/').next().unwrap().to_string();
+            // the absolute spelling is looked up next to the importer first: usable only if the importer's directory has no
+            // sub-directory of that name
+            let shadowed = files.iter().any(|f| f.rel.starts_with(&format!("{}/{}/", cdir, sub)));
+            let m = if shadowed || rng.chance(500) { format!("..{}.conftest", sub) } else { format!("{}.conftest", sub) };
+            let hn = fixture_names_of(&files[si]);
+            let target = files[si].rel.clone();
+            let it = if hn.is_empty() || rng.chance(500) {
+                Item::Star { module: m, target: Some(target) }
+            } else {
+                let mut ns = hn.clone();
+                rng.shuffle(&mut ns);
+                ns.truncate(rng.range(1, ns.len()));
+                Item::Import { module: m, names: ns, target: Some(target) }
+            };
+            let at = rng.below(files[*ci].items.iter().take_while(|i| matches!(i, Item::Star { .. } | Item::Import { .. } | Item::Plugins { .. })).count() + 1);
+            files[*ci].items.insert(at, it);
+        }
+    }
     if o.dep_cycles {
         inject_dep_cycle(rng, &mut files, &names);
     }
